@@ -141,7 +141,7 @@ def gen_case(rng: Rng, i: int, tier: str):
         entries.append({"name": alias, "kind": ro.pick(["file", "file", "file", "dir"]), "data": ro.pick(["", "", "payload-o"])})
     data_n = sum(1 for e in entries if e["kind"] != "dir")
     split = r.chance(0.4) and data_n > 1
-    return {"entries": entries, "multi_folder": split, "dest": r.pick(["abs", "rel", "none"]), "prepop": r.pick([None, None, "files"]),
+    return {"entries": entries, "multi_folder": split, "dest": r.pick(["abs", "rel", "none", "dot", "abs", "rel", "none", "empty"]), "prepop": r.pick([None, None, "files"]),
             "open": r.pick(["path", "stream", "anon"]), "call": r.wpick([(4, "extractall"), (1, "extract")]), "tseed": r.randrange(1 << 30)}
 
 
@@ -220,6 +220,9 @@ def run_case(case):
         elif case["dest"] == "rel":
             path = "jail"
             os.chdir(moat2)
+        elif case["dest"] in ("dot", "empty"):
+            path = "." if case["dest"] == "dot" else ""
+            os.chdir(jail)
         else:
             path = None
             os.chdir(jail)
